@@ -248,10 +248,31 @@ def check_sentence_lines(ctx: Ctx) -> None:
             return k_
 
         pops = [n for n in body if removals(n)]
+        ctx.require("R-SENT", "short-line merge statements in the sentence loop", len(merges), 1)
         for mnode in merges:
             from .common import expand_flag_edges
 
             edges = expand_flag_edges(flow, must_edges(flow.cfg, h, mnode) or set())
+            # ... and only when the merged line still fits: the fit test compares against the wrapper's own width
+            fit_w = None
+            for b_, lab_ in edges:
+                if b_.kind != "test" or lab_ != "T":
+                    continue
+                cands_ = [b_.ast]
+                try:
+                    cands_.append(expand_expr(prog, lw, b_.ast, b_))
+                except Exception:  # noqa: BLE001
+                    pass
+                for e_ in cands_:
+                    for cj in ast.walk(e_):
+                        if isinstance(cj, ast.Compare) and len(cj.ops) == 1 and isinstance(cj.ops[0], (ast.LtE, ast.Lt)) and f"{L}[-1]" in norm(cj.left) \
+                                and isinstance(cj.comparators[0], ast.Name) and "min_line_len" not in norm(cj.comparators[0]):
+                            fit_w = (cj.comparators[0], b_)
+            if fit_w is not None:
+                worg = origins(prog, lw, fit_w[0], fit_w[1])
+                ctx.ob("R-SENT", f"{lw.qual} :: merged line is measured against the wrapper's width", worg <= frozenset({("free", "width"), ("param", "width")}) and bool(worg),
+                       "the short-line merge must be limited by the width the wrapper was built with; it is compared with "
+                       + ", ".join(fmt_origin(o) for o in worg), where(lw, mnode))
             def short_test(b: Node) -> bool:
                 """a conjunct of the condition says: length of {L}[-1] < min_line_len (possibly behind a named temporary /
                 the result of a predicate helper)"""
